@@ -35,6 +35,8 @@ pub(crate) struct Live {
 pub struct Branch {
     pub chain: SimChain,
     pub(crate) facts: Vec<Fact>,
+    /// (spending tx, input index) -> block that created the spent cell
+    pub(crate) spent_created: std::collections::HashMap<(Byte32, u32), u64>,
     /// live outputs after block i
     pub(crate) live_at: Vec<Vec<Live>>,
 }
@@ -44,6 +46,7 @@ impl Branch {
         Branch {
             chain: SimChain::new_dummy(),
             facts: Vec::new(),
+            spent_created: Default::default(),
             live_at: vec![Vec::new()],
         }
     }
@@ -76,6 +79,7 @@ impl Branch {
                 );
                 for (i, l) in spent.iter().enumerate() {
                     self.facts.push((l.sid, b, t.hash(), i as u32, false));
+                    self.spent_created.insert((t.hash(), i as u32), l.block);
                 }
                 for (o, (sid, _)) in outputs.iter().enumerate() {
                     self.facts.push((*sid, b, t.hash(), o as u32, true));
@@ -91,6 +95,7 @@ impl Branch {
         Branch {
             chain: self.chain.fork(at, salt),
             facts: self.facts.iter().filter(|f| f.1 <= at).cloned().collect(),
+            spent_created: self.spent_created.clone(),
             live_at: self.live_at[..=at as usize].to_vec(),
         }
     }
@@ -309,13 +314,15 @@ pub fn run_mode(opts: &Options, prop: &str) -> Report {
         node.connect(peer);
         let mut lines = vec!["reset 0".to_string()];
         let mut impls = vec!["ok".to_string()];
+        // C03: half of the histories register the scripts from a later block
+        let reg_start: u64 = if prop == "C03" && seed % 2 == 0 { 1 + seed % (branches[0].chain.tip_number() / 2).max(1) } else { 0 };
         {
             let statuses: Vec<ScriptStatus> = (1..=N_SCRIPTS)
-                .map(|id| ScriptStatus { script: script_of(id).into(), script_type: ScriptType::Lock, block_number: 0.into() })
+                .map(|id| ScriptStatus { script: script_of(id).into(), script_type: ScriptType::Lock, block_number: reg_start.into() })
                 .collect();
             let rpc = node.filter_rpc();
             rpc.set_scripts(statuses, Some(SetScriptsCommand::All)).expect("set_scripts");
-            lines.push(format!("set 0 | {}", (1..=N_SCRIPTS).map(|i| format!("{} 0", i)).collect::<Vec<_>>().join(" ")));
+            lines.push(format!("set 0 | {}", (1..=N_SCRIPTS).map(|i| format!("{} {}", i, reg_start)).collect::<Vec<_>>().join(" ")));
             impls.push(String::new());
             lines.push("dump".into());
             impls.push(show_obs(&observe(&node, &branches[0].chain)));
@@ -522,16 +529,29 @@ pub fn run_mode(opts: &Options, prop: &str) -> Report {
             continue;
         }
         let (facts, cells) = index_dump(&node);
-        let truth: BTreeSet<Fact> = fin.facts.iter().cloned().collect();
-        let missing: Vec<String> = truth.difference(&facts).take(4).map(|f| format!("script {} block {} tx {} cell {} output {}", f.0, f.1, short(&f.2), f.3, f.4)).collect();
+        let truth: BTreeSet<Fact> = fin.facts.iter().filter(|f| f.1 > reg_start).cloned().collect();
+        let missing_facts: Vec<&Fact> = truth.difference(&facts).collect();
+        // an input that spends a cell created at or below the start number cannot be attributed:
+        // the index never saw the transaction that created the cell
+        let (pre, other): (Vec<&Fact>, Vec<&Fact>) = missing_facts
+            .into_iter()
+            .partition(|f| !f.4 && fin.spent_created.get(&(f.2.clone(), f.3)).map(|c| *c <= reg_start).unwrap_or(false));
+        let show = |v: &Vec<&Fact>| -> Vec<String> { v.iter().take(4).map(|f| format!("script {} block {} tx {} cell {} output {}", f.0, f.1, short(&f.2), f.3, f.4)).collect() };
         let extra: Vec<String> = facts.difference(&truth).take(4).map(|f| format!("script {} block {} tx {} cell {} output {}", f.0, f.1, short(&f.2), f.3, f.4)).collect();
-        if !missing.is_empty() {
-            rep.violate(&format!("{}|history-missing", prop), "after the reorganisation and convergence the history misses activity of the new chain", replay(format!("# missing: {:?}", missing)));
+        if !pre.is_empty() {
+            rep.violate(
+                &format!("{}|history-missing|spend-of-a-cell-created-before-the-start-number", prop),
+                "a transaction after the start number that spends a cell of the script created at or before the start number is not reported",
+                replay(format!("# scripts registered from {}; missing: {:?}", reg_start, show(&pre))),
+            );
+        }
+        if !other.is_empty() {
+            rep.violate(&format!("{}|history-missing", prop), "after the chain moved and the sync converged the history misses activity of the new chain", replay(format!("# scripts registered from {}; missing: {:?}", reg_start, show(&other))));
         }
         if !extra.is_empty() {
             rep.violate(&format!("{}|history-extra", prop), "after the reorganisation and convergence the history holds entries that are not on the new chain", replay(format!("# extra: {:?}", extra)));
         }
-        let tcells = fin.cells();
+        let tcells: BTreeSet<Cell> = fin.cells().into_iter().filter(|c| c.1 > reg_start).collect();
         let missing: Vec<String> = tcells.difference(&cells).take(4).map(|c| format!("script {} block {} tx {} index {}", c.0, c.1, short(&c.2), c.3)).collect();
         let extra: Vec<String> = cells.difference(&tcells).take(4).map(|c| format!("script {} block {} tx {} index {}", c.0, c.1, short(&c.2), c.3)).collect();
         if !missing.is_empty() {
